@@ -389,10 +389,17 @@ func (r *Run) Finish() int {
 		p := filepath.Join(replayDir, name)
 		if !seenRep[p] {
 			seenRep[p] = true
-			b, _ := json.MarshalIndent(map[string]any{
+			b, err := json.MarshalIndent(map[string]any{
 				"property": r.Prop, "tier": r.Tier, "seed": r.Seed,
 				"workload": v.Workload, "index": v.Index, "violation": v,
 			}, "", " ")
+			if err != nil {
+				// the case description holds something JSON cannot carry: keep what is needed to re-execute the case
+				b, _ = json.MarshalIndent(map[string]any{
+					"property": r.Prop, "tier": r.Tier, "seed": r.Seed, "workload": v.Workload, "index": v.Index,
+					"violation": map[string]any{"clause": v.Clause, "class": v.Class, "reason": v.Reason, "case": fmt.Sprintf("%+v", v.Case), "observed": fmt.Sprintf("%+v", v.Observed), "marshal_error": err.Error()},
+				}, "", " ")
+			}
 			_ = os.WriteFile(p, b, 0o644)
 		}
 		if i < 40 {
